@@ -417,8 +417,11 @@ fn on_tramp_answer(w: &mut World, u: usize, i: usize, kind: &AnsKind, now: u64) 
                             w.violate("C11", "R11b", "R11b|failed-before-timeout".into(), format!("incomplete set of {hex_} failed at {now} ms, before read-done {t0} + mpp {mpp}"));
                         }
                         w.stats.eval("R11c", (mpp / 1000).min(4000));
+                        w.stats.eval("R06e", (mpp / 1000).min(4000));
                         if now > t0 + mpp + 5 {
                             w.violate("C11", "R11c", "R11c|failed-late".into(), format!("incomplete set of {hex_} failed at {now} ms, later than read-done {t0} + mpp {mpp} + tol"));
+                            // the last clause of C06 is the same bound
+                            w.violate("C06", "R06e", "R06e|answered-later-than-one-mpp-timeout-after-the-state-read".into(), format!("incomplete set of {hex_} answered at {now} ms; its stored state was read at {t0} ms and the MPP timeout is {mpp} ms"));
                         }
                     }
                 }
